@@ -1,6 +1,19 @@
 (* C11 — Modification dates are stamped on exactly the notes that were edited. *)
 From Zorg Require Import Base.PyStr Base.Res Base.Dates Model.Zid Model.FileListener Model.QueryListener Model.WriteBack
-  Proofs.WriteBackFacts Model.PageSyntax Model.PageText Proofs.PageFacts Proofs.ItemWriteBack.
+  Proofs.WriteBackFacts Model.PageSyntax Model.PageText Proofs.PageFacts Proofs.ItemWriteBack Model.PageLines
+  Proofs.PageWriteBack.
+
+(* The whole page: stamping date d on the notes with a ZID on the chosen lines (mdate_targets = the (line, date)
+   pairs _check_for_modified_notes hands _update_zo_file) rewrites the canonical text of ANY abstract page into
+   the canonical text of the same page with identity "d + ZID" on exactly those items - the old modify date
+   replaced, a missing one inserted - and every other line and word untouched. *)
+Theorem C11_dates_written_into_page : forall today d chosen pg,
+  mdate_ready d chosen pg -> forallb (lacks nlc10) (map row_text (page_rows pg)) = true ->
+  update_zo_file add_or_update_modify_date (mdate_targets d chosen (spec_page today pg)) (page_text pg) =
+  Ok (page_text (stamped d chosen pg)).
+Proof. exact mdates_written_into_page. Qed.
+Theorem C11_page_hypotheses_decidable : forall d chosen pg, mdate_readyb d chosen pg = true -> mdate_ready d chosen pg.
+Proof. exact mdate_readyb_sound. Qed.
 
 (* On abstract items: stamping writes the date in front of the ZID - inserted when the item has none, replacing the
    old one otherwise - and nothing else of the line changes: the result is the canonical text of the same item
@@ -49,6 +62,8 @@ Theorem C11_heuristic_refuted :
   = Some (S "240602 second").
 Proof. exact stamp_heuristic_refuted. Qed.
 
+Print Assumptions C11_dates_written_into_page.
+Print Assumptions C11_page_hypotheses_decidable.
 Print Assumptions C11_date_written_into_item.
 Print Assumptions C11_iff.
 Print Assumptions C11_idempotent.
